@@ -269,8 +269,10 @@ LiveLinks == {[r |-> "R", d |-> "d", n |-> "a", o |-> 1], [r |-> "V1", d |-> "to
               [r |-> "V1", d |-> "d", n |-> "b", o |-> 3], [r |-> "V2", d |-> "d", n |-> "a", o |-> 5],
               [r |-> "R", d |-> "top", n |-> "b", o |-> 7], [r |-> "H", d |-> "d", n |-> "b", o |-> 9]}
 Init_Links ==
-  /\ cfg \in {[mounted |-> m, top |-> TopOn("V1", x), altfile |-> {}, xdg |-> xd, home |-> "set", hlink |-> "none", kind |-> KindsLinks] :
-                 m \in Layouts, x \in {"absent", "sticky"}, xd \in {"set", "unset"}}
+  \* af = {"V1"}: $topdir/.Trash-$uid of V1 is a regular file, so with .Trash absent only the home fallback (a copy across
+  \* volumes) can take a link that lives on V1
+  /\ cfg \in {[mounted |-> m, top |-> TopOn("V1", x), altfile |-> af, xdg |-> xd, home |-> "set", hlink |-> "none", kind |-> KindsLinks] :
+                 m \in Layouts, x \in {"absent", "sticky"}, xd \in {"set", "unset"}, af \in {{}, {"V1"}}}
   /\ dirs = BaseDirs /\ live = LiveLinks /\ EmptyTrash
   /\ clock = 1 /\ purged = {} /\ out = [cmd |-> "init"]
 Next_PutLink ==
